@@ -30,6 +30,9 @@ type FCase struct {
 	App      []string `json:"app"`   // concrete types mapped on the Flame
 	Handlers []FH     `json:"handlers"`
 	Requests int      `json:"requests"`
+	// Wrapper: a HandlerWrapper (the identity) is configured; it sees every
+	// handler that is not one of the built-in fast shapes.
+	Wrapper bool `json:"handler_wrapper,omitempty"`
 }
 
 type ctxWrap struct{ flamego.Context }
@@ -108,6 +111,9 @@ func (s *fw) after(ctx flamego.Context, h FH) {
 
 func checkFramework(c FCase) (out evid.Outcome) {
 	f := flamego.NewWithLogger(io.Discard)
+	if c.Wrapper {
+		f.HandlerWrapper(func(h flamego.Handler) flamego.Handler { return h })
+	}
 	outer := inject.New()
 	f.SetParent(outer)
 	s := &fw{mOuter: &mscope{}, mApp: &mscope{}, id: 1, classes: map[string]bool{}}
@@ -319,6 +325,7 @@ func genFCase(t *rapid.T) FCase {
 	}
 	c.Outer = pick("outer", 3)
 	c.App = pick("app", 3)
+	have := append(append([]string{}, c.Outer...), c.App...)
 	kinds := []string{"ctx", "http", "handlerfunc", "refl", "typed", "typed", "ctx", "ctxerr", "ctxerr-named"}
 	for i, n := 0, rapid.IntRange(1, 6).Draw(t, "nh"); i < n; i++ {
 		h := FH{Kind: kinds[rapid.IntRange(0, len(kinds)-1).Draw(t, "kind")]}
@@ -326,16 +333,36 @@ func genFCase(t *rapid.T) FCase {
 			for j, m := 0, rapid.IntRange(0, 3).Draw(t, "nin"); j < m; j++ {
 				// the empty interface is left to the injector-level check: the
 				// framework's own services in the request scope satisfy it too
-				h.In = append(h.In, fwTypeNames[rapid.IntRange(0, len(fwTypeNames)-1).Draw(t, "in")])
+				tn := fwTypeNames[rapid.IntRange(0, len(fwTypeNames)-1).Draw(t, "in")]
+				if len(have) > 0 && rapid.IntRange(0, 9).Draw(t, "fromhave") < 7 {
+					// mostly something that can be resolved: a type registered in some
+					// scope by now, or an interface one of them implements (so that
+					// request scope, application scope and the outer parent compete)
+					tn = have[rapid.IntRange(0, len(have)-1).Draw(t, "hv")]
+					if ifs := ifacesOf(tn); len(ifs) > 0 && rapid.Bool().Draw(t, "viaiface") {
+						tn = ifs[rapid.IntRange(0, len(ifs)-1).Draw(t, "hi")]
+					}
+					if tn == "I0" {
+						tn = have[0]
+					}
+				}
+				h.In = append(h.In, tn)
 			}
 		}
 		if h.Kind == "ctx" || h.Kind == "refl" || h.Kind == "typed" {
 			h.MapReq = pick("mapreq", 2)
+			if len(have) > 0 && rapid.IntRange(0, 3).Draw(t, "shadow") == 0 {
+				// a request-scoped value of a type the application (or the outer
+				// parent) has too: the nearest one must win from here on
+				h.MapReq = append(h.MapReq, have[rapid.IntRange(0, len(have)-1).Draw(t, "shadowt")])
+			}
+			have = append(have, h.MapReq...)
 			h.Remap = []string{"", "", "", "context", "writer", "request", "writer-chained"}[rapid.IntRange(0, 6).Draw(t, "remap")]
 		}
 		c.Handlers = append(c.Handlers, h)
 	}
 	c.Requests = rapid.IntRange(1, 2).Draw(t, "nreq")
+	c.Wrapper = rapid.IntRange(0, 3).Draw(t, "wrapper") == 0
 	return c
 }
 
